@@ -12,7 +12,7 @@ from . import _hist
 LEVEL = "exploration"
 SHARDS = {"quick": 8, "thorough": 16}
 BUDGET = {"quick": 18, "thorough": 200}
-RULE = ("same history workloads as C01 (EX1/EX2/RND/STRESS); after every accepted call the third element of "
+RULE = ("same history workloads as C01 (EX1/EX2/RND/STRESS/PASSIVE); after every accepted call the third element of "
         "interactions()/in_interactions()/out_interactions() (t omitted) is checked: list of [start,end] int "
         "pairs, start<=end, next start >= previous end+2, union == the model's presence set, each pair listed "
         "once, identical from both end points / from the in- and out- side. DERIVED = the same oracle on every "
@@ -53,8 +53,11 @@ def derived(ctx, dn):
     import json
     rng = ctx.rng
     directed = rng.random() < 0.5
-    prog, fam = gen.random_program(rng, lambda: Model(directed, True), directed=directed,
-                                   family=rng.choice(("int", "str")), tfamily="small", with_nodes=False)
+    if rng.random() < 0.1:
+        prog, fam = gen.long_timeline_program(rng, directed), dict(nodes="int")
+    else:
+        prog, fam = gen.random_program(rng, lambda: Model(directed, True), directed=directed,
+                                       family=rng.choice(("int", "str")), tfamily="small", with_nodes=False)
     G, m, ok = driver.build_accepted(dn, prog, directed)
     if not ok or not m.nontrivial():
         ctx.skip("derived: source graph not built")
@@ -64,8 +67,9 @@ def derived(ctx, dn):
     ids = m.ids()
     a = rng.choice(ids)
     b = rng.choice([x for x in ids if x >= a])
-    made = []
+    made, kept = [], []
     made.append(("time_slice", lambda: G.time_slice(a, b), directed))
+    made.append(("time_slice", lambda: G.time_slice(ids[0] - 1, ids[-1] + 1), directed))
     if directed:
         made.append(("to_undirected", lambda: G.to_undirected(), False))
         made.append(("to_undirected", lambda: G.to_undirected(reciprocal=True), False))
@@ -101,20 +105,46 @@ def derived(ctx, dn):
             raise
         ctx.cell("derived:" + name)
         guarded(ctx, "derived:" + name, canonical_only, ctx, dn, H, d, "derived:%s:" % name)
+        kept.append((name, H, d))
         ctx.nontrivial(m.state_key(), name, (a, b) if name == "time_slice" else None)
+    # the derived graphs stay canonical when their source is updated later (no shared interval lists)
+    from .c16 import grow
+    try:
+        grow(ctx, G)
+    except Exception as ex:
+        from ..guard import raised_in_library
+        if not raised_in_library(ex):
+            raise
+        ctx.violation("derived:source-update:raised", dict(exception=repr(ex)))
+    for name, H, d in kept:
+        ctx.case["constructor"] = name + " (re-inspected after the source was updated)"
+        guarded(ctx, "derived-later:" + name, canonical_only, ctx, dn, H, d, "derived-later:%s:" % name)
     if len(ctx.samples) < 6 and rng.random() < 0.01:
         ctx.sample(ctx.case)
 
 
+def passive_battery(ctx, dn, G, m):
+    # graphs built by the repository's own tests (removal-enabled ones; accumulative ones belong to C08)
+    if m.removal:
+        battery(ctx, dn, G, m)
+
+
 def run(ctx, dn):
+    if ctx.shard == 0:
+        from .. import passive
+        ctx.notes["passive_graphs"] = passive.run(ctx, dn, passive_battery)
     if ctx.tier == "quick":
         _hist.exhaustive(ctx, dn, battery, 2, two_pairs_len=2)
         t_end = ctx.time_left() * 0.45
-        _hist.random_histories(ctx, dn, battery, until=t_end)
+        _hist.second_life(ctx, dn, battery, 6)
+        _hist.long_timelines(ctx, dn, battery, 4)
+        _hist.random_histories(ctx, dn, battery, until=t_end, clears=True)
         _hist.stress(ctx, dn, battery, 1500, every=100)
     else:
         _hist.exhaustive(ctx, dn, battery, 3, two_pairs_len=3)
-        _hist.random_histories(ctx, dn, battery, until=ctx.time_left() * 0.4)
+        _hist.second_life(ctx, dn, battery, 60)
+        _hist.long_timelines(ctx, dn, battery, 40)
+        _hist.random_histories(ctx, dn, battery, until=ctx.time_left() * 0.4, clears=True)
         for _ in range(3):
             _hist.stress(ctx, dn, battery, 6000, every=200)
     while ctx.time_left() > 1:
